@@ -108,6 +108,7 @@ type Outcome struct {
 	// errors
 	ErrName   string `json:"err_name,omitempty"`
 	ErrTree   any    `json:"err_tree,omitempty"` // custom error value
+	Custom    bool   `json:"custom,omitempty"`   // the error uses a custom (non ErrorResult) type
 	ErrMsg    string `json:"err_msg,omitempty"`
 	ErrID     string `json:"err_id,omitempty"`
 	Timeout   bool   `json:"timeout,omitempty"`
@@ -255,7 +256,7 @@ func (h *Hooks) apply(oc *Outcome, out Out) error {
 		return nil
 	case "declared", "wrapped-declared", "joined-declared":
 		var err error
-		if oc.ErrTree == nil && oc.ErrMsg != "" {
+		if !oc.Custom {
 			// default ErrorResult type
 			err = &goa.ServiceError{Name: oc.ErrName, ID: oc.ErrID, Message: oc.ErrMsg, Timeout: oc.Timeout, Temporary: oc.Temporary, Fault: oc.Fault}
 		} else {
@@ -264,7 +265,11 @@ func (h *Hooks) apply(oc *Outcome, out Out) error {
 				return fmt.Errorf("no Go type registered for custom error %q", oc.ErrName)
 			}
 			t := reflect.TypeOf(proto)
-			v, e := Build(t, NormKeys(oc.ErrTree))
+			tree := NormKeys(oc.ErrTree)
+			if tree == nil && t.Kind() == reflect.Ptr {
+				tree = map[string]any{}
+			}
+			v, e := Build(t, tree)
 			if e != nil {
 				return fmt.Errorf("cannot build scripted error: %w", e)
 			}
